@@ -233,6 +233,11 @@ void generate(uint64_t seed, const Str& profile, Desc& d, bool exceptions) {
         d.groups.push_back(T);
     }
 
+    if (f.ptrs && world.chance(1, 3)) {       // redirections made outside any test (from main) before the run: the table entries they leave behind are not the run's
+        Group P; P.tag = "presets"; int n = (int)world.range(1, 3);
+        for (int i = 0; i < n; i++) { Op o; o.kind = K_PTR_SET; o.a = (int64_t)world.below(world.chance(1, 2) ? 2 : N_TARGETS); o.b = (int64_t)world.below(N_VALUES); P.ops.push_back(o); }
+        d.groups.push_back(P);
+    }
     if (f.plugins && world.chance(1, 2)) {
         int np = (int)world.range(1, world.chance(1, 3) ? 8 : 3);
         bool removals = world.chance(1, 3);
